@@ -109,21 +109,6 @@ sc('scan_uri_escapes', result='str',
                    "forall(j, 0, loop_i, S(self)[self.index + j] in '0123456789ABCDEFabcdef')"]},
    variants={0: "len(S(self)) - self.index"}, modifies=MODF)
 
-# ---- quoted scalars: text runs, '' and backslash escapes (C03: \xXX \uXXXX \UXXXXXXXX never leave the scanner as a non-YAML error)
-_NS_INV = [inv_reader, "self.index >= old(self.index)", "typeis(chunks, 'list') and fresh(chunks)", "typeis(double, 'bool')"]
-sc('scan_flow_scalar_non_spaces', params={'double': 'bool'}, result='list', max_paths=12,
-   ensures=["self.index >= old(self.index)", "fresh(result)"], labels={0: 'only-moves-forward', 1: 'a-new-list-of-chunks'},
-   invariants={0: _NS_INV,
-               1: _NS_INV + [POS_SAME if False else "self.index == before_loop(self.index)", "length >= 0 and self.index + length < len(S(self))",
-                             "forall(j, 0, length, S(self)[self.index + j] not in '\\0')"],
-               2: _NS_INV + ["self.index == before_loop(self.index)", "typeis(length, 'int') and (length == 2 or length == 4 or length == 8)",
-                             "self.index + loop_i < len(S(self))",
-                             "forall(j, 0, loop_i, S(self)[self.index + j] in '0123456789ABCDEFabcdef')"]},
-   modifies=MODF)
-contract(SC + 'scan_flow_scalar_breaks', trusted=True, why='line folding inside quoted scalars: only its frame and "moves forward" are used by scan_flow_scalar_non_spaces',
-         axioms=[pos_defs], requires=[inv_reader], result='list', ensures=[inv_reader, "self.index >= old(self.index)", "fresh(result)"],
-         modifies=MODF, raises=RAISES, raises_any=True)
-
 # ---------------------------------------------------------------------------------------------------------------- C18 / C20
 # the simple-key bookkeeping that bounds token look-ahead: candidates expire after one line / 1024 characters, and more tokens are
 # fetched only while the queue is empty or a candidate still points at the token about to be handed out
